@@ -36,14 +36,23 @@ class NameMappingRequest(LocatedRequest[Optional[KeyPath]]):
     generated_key: Key
 
 
+def _to_exact_key(key: Key) -> Key:
+    # keys are rendered into the generated code by ``repr``, which a subclass (a member of ``StrEnum``) defines as it likes
+    if isinstance(key, str):
+        return str.__str__(key)
+    if isinstance(key, int):
+        return int.__index__(key)
+    return key
+
+
 def resolve_map_result(generated_key: Key, map_result: MapResult) -> Optional[KeyPath]:
     if map_result is None:
         return None
     if isinstance(map_result, (str, int)):
-        return (map_result, )
+        return (_to_exact_key(map_result), )
     if isinstance(map_result, EllipsisType):
         return (generated_key,)
-    return tuple(generated_key if isinstance(key, EllipsisType) else key for key in map_result)
+    return tuple(generated_key if isinstance(key, EllipsisType) else _to_exact_key(key) for key in map_result)
 
 
 class NameMappingProvider(MethodsProvider, ABC):
